@@ -41,6 +41,9 @@ impl CompInfo {
     pub uninterp spec fn s_own_virtual(&self) -> bool;
     pub uninterp spec fn s_no_fields(&self) -> bool;
     #[verifier::external_body] pub fn has_own_virtual_method(&self) -> (r: bool) ensures r == self.s_own_virtual() { unimplemented!() }
+    // the base classes, in declaration order
+    pub uninterp spec fn s_bases(&self) -> Seq<Base>;
+    #[verifier::external_body] pub fn base_members(&self) -> (r: &[Base]) ensures r@ == self.s_bases() { unimplemented!() }
     // stands for `info.fields().is_empty()`
     #[verifier::external_body] pub fn has_no_fields(&self) -> (r: bool) ensures r == self.s_no_fields() { unimplemented!() }
 }
@@ -79,6 +82,10 @@ pub struct HashMap<K, V> { _p: core::marker::PhantomData<(K, V)> }
 impl<K, V> HashMap<K, V> {
     pub uninterp spec fn view(&self) -> Map<K, V>;
     #[verifier::external_body]
+    pub fn contains_key(&self, k: &K) -> (r: bool)
+        ensures r == self.view().contains_key(*k),
+    { unimplemented!() }
+    #[verifier::external_body]
     pub fn get(&self, k: &K) -> (r: Option<&V>)
         ensures r.is_some() == self.view().contains_key(*k), r.is_some() ==> *r.unwrap() == self.view()[*k],
     { unimplemented!() }
@@ -99,9 +106,30 @@ pub fn map_insert<K, V>(m: &mut HashMap<K, V>, k: K, v: V)
     ensures final(m).view() == old(m).view().insert(k, v),
 { unimplemented!() }
 
-// stands for: info.base_members().iter().any(|base| self.have_vtable.contains_key(&base.ty.into()))
-pub uninterp spec fn s_any_base_key(dom: Set<ItemId>, info: &CompInfo) -> bool;
-#[verifier::external_body] pub fn any_base_has_key<V>(m: &HashMap<ItemId, V>, info: &CompInfo) -> (r: bool) ensures r == s_any_base_key(m.view().dom(), info) { unimplemented!() }
+// "some base class has an entry" (C++: a class with a polymorphic base is polymorphic)
+pub open spec fn s_any_base_key(dom: Set<ItemId>, info: &CompInfo) -> bool {
+    exists|j: int| 0 <= j < info.s_bases().len() && #[trigger] dom.contains(info.s_bases()[j].ty.0)
+}
+pub struct Base { pub ty: TypeId }
+// `TypeId -> ItemId` (`base.ty.into()`): the id of the type item
+impl vstd::std_specs::convert::FromSpecImpl<TypeId> for ItemId {
+    open spec fn obeys_from_spec() -> bool { true }
+    open spec fn from_spec(t: TypeId) -> ItemId { t.0 }
+}
+impl core::convert::From<TypeId> for ItemId {
+    fn from(t: TypeId) -> (r: ItemId) { t.0 }
+}
+// `xs.iter().any(|x| ..)` over the base classes: a cursor (rule R25)
+#[verifier::external_body] pub struct BaseCursor<'a> { _p: core::marker::PhantomData<&'a ()> }
+impl<'a> BaseCursor<'a> {
+    pub uninterp spec fn all(&self) -> Seq<Base>;
+    pub uninterp spec fn pos(&self) -> int;
+    #[verifier::external_body] pub fn new(v: &'a [Base]) -> (r: BaseCursor<'a>) ensures r.all() == v@, r.pos() == 0 { unimplemented!() }
+    #[verifier::external_body] pub fn has_next(&self) -> (r: bool) ensures r == (self.pos() < self.all().len()), 0 <= self.pos() <= self.all().len() { unimplemented!() }
+    #[verifier::external_body] pub fn next_item(&mut self) -> (r: &'a Base)
+        requires old(self).pos() < old(self).all().len(),
+        ensures *r == old(self).all()[old(self).pos()], final(self).pos() == old(self).pos() + 1, final(self).all() == old(self).all() { unimplemented!() }
+}
 
 pub fn runtime_assert(b: bool) requires b {}
 
